@@ -27,8 +27,8 @@ CHECKS["C03"] = (
     "tracer hook records every stage; oracle: returns a list, no exception/assertion, no revisited loop state (lasso), "
     "<= 30 iterations, <= 120 s CPU", "8/C03")
 
-SEM = ("bounded-exhaustive exploration of the real pass over a slot grammar x all instances x all answer sets, "
-       "clingo as reference model")
+SEM = ("bounded-exhaustive exploration of the real pass over a slot grammar (plus the variants produced by a fixed list of "
+       "syntactic and semantic program mutators) x all instances x all answer sets, clingo as reference model")
 CHECKS["C11"] = (SEM, "every program GROUP x EXTRA x CONTEXT x definition is run through optimize(symmetry only); for "
                  "every subset of the fact universe all answer sets of source and result are compared as multisets on "
                  "voc(P) with costs", "8/C11")
